@@ -227,6 +227,17 @@ func c16Generate(ctx *Ctx, ops []fop, schemas []string, cfg fcfg, fw string) err
 	case "iris":
 		o.Generate.IrisServer = true
 	}
+	if len(cfg.Et) >= 2 {
+		// the same loaded document first generated with a weaker filter (one exclusion less): what the second call embeds,
+		// declares and routes is what its own filter leaves (the first call removed only operations the second removes too)
+		weaker := cfg
+		weaker.Et = cfg.Et[:len(cfg.Et)-1]
+		ow := weaker.config()
+		ow.PackageName = "api"
+		ow.Generate = o.Generate
+		_, _ = generate(spec, ow)
+		ctx.Res.Count("generate:after-a-weaker-filter-on-the-same-document")
+	}
 	c := J{"ops": ops, "cfg": cfg, "fw": fw, "schemas": schemas}
 	ctx.Res.Eval(c, true)
 	ctx.Res.Count("generate:" + fw)
